@@ -23,7 +23,7 @@ from vf.xlate import BACKENDS, translate
 RULE = (
     "case = history of 1-6 invocations of one back end's rendered runner.sh in one jail: flag words from {none, -c, -r, -d f, -o dir|file, "
     "combinations, unknown flag, missing option argument, stray argument} x optional single fault (the named step fails when next reached: "
-    "environment setup, cmake/make | mkedanlzr/scram, the job, sudo, conversion, final copy; conversion and copy may also fail after they have begun to write their output file; the job may report success without writing anything). non-trivial = history with a successful build "
+    "environment setup, cmake/make | mkedanlzr/scram, the job, sudo, conversion, final copy; conversion and copy may also fail after they have begun to write their output file, the job after it has written its; the job may report success without writing anything). non-trivial = history with a successful build "
     "and >=2 runs, or a fault injected into a step that was actually reached; distinct by (back end, history)."
 )
 
@@ -95,7 +95,7 @@ class Runner(RuleBasedStateMachine):
         flags=st.sampled_from(["", "", "-c", "-r", "-r", "-c -r", "-x", "-d", "-c extra", "-r extra", "-o", "--help", "-cr"]),
         dfile=st.sampled_from([None, None, "/data/a.root", "root://host//b.root", "/data/with space.root", "reldata/c.root", "/data/run[1].root", "/data/a  b.root", "/data/*.root"]),
         odir=st.sampled_from([None, None, "/results2", "/results/renamed.root", "/out2", "relout"]),
-        fault=st.sampled_from([None, None, None, "setup", "build0", "build1", "job", "sudo", "convert", "copy", "job-silent", "convert-partial", "copy-partial"]),
+        fault=st.sampled_from([None, None, None, "setup", "build0", "build1", "job", "sudo", "convert", "copy", "job-silent", "convert-partial", "copy-partial", "job-late"]),
     )
     def invoke_rule(self, flags, dfile, odir, fault):
         self.invoke(flags, dfile, odir, fault)
@@ -118,7 +118,8 @@ class Runner(RuleBasedStateMachine):
         if silent:
             fault = None
         # convert-partial / copy-partial: the step fails after it has begun to write where it was told to write
-        partial = fault in ("convert-partial", "copy-partial")
+        # job-late: the analysis job fails after its output file has been written (a crash while finalising)
+        partial = fault in ("convert-partial", "copy-partial", "job-late")
         if partial:
             fault = fault.split("-")[0]
         tool = {None: None, "setup": SETUP[be], "build0": BUILD[be][0], "build1": BUILD[be][1], "job": JOB[be], "sudo": "sudo" if be == "atlas" else None,
@@ -222,7 +223,7 @@ class Runner(RuleBasedStateMachine):
     @rule(
         dfile=st.sampled_from([None, "/data/a.root", "/data/b.root", "root://host//b.root", "reldata/c.root", "/data/run[1].root", "/data/a  b.root"]),
         odir=st.sampled_from([None, "/results2", "/results/renamed.root", "/out2", "relout"]),
-        fault=st.sampled_from([None, "job", "job", "convert", "copy", "sudo", "setup", None, "job-silent", "job-silent", "convert-partial", "copy-partial", "convert-partial"]),
+        fault=st.sampled_from([None, "job", "job", "convert", "copy", "sudo", "setup", None, "job-silent", "job-silent", "convert-partial", "copy-partial", "convert-partial", "job-late", "job-late"]),
     )
     def rerun(self, dfile, odir, fault):
         """run-only invocations against an existing build (where stale outputs and inputs of earlier runs lie around)"""
